@@ -14,7 +14,7 @@
 From Coq Require Import NArith List Bool.
 Require Import SDS.Model.Mach SDS.Model.Bits SDS.Model.Raw SDS.Model.IntVec SDS.Model.BitVec SDS.Model.Sparse.
 Require Import SDS.Spec.BitSeq SDS.Spec.ValSeq SDS.Proofs.BVCommon SDS.Proofs.SparseSeq SDS.Proofs.SparseProof.
-Require Import SDS.Proofs.SparseBuild SDS.Proofs.SparseLow SDS.Proofs.SparseMain.
+Require Import SDS.Proofs.SparseBuild SDS.Proofs.SparseLow SDS.Proofs.SparseZero SDS.Proofs.SparseMain.
 Import ListNotations.
 Open Scope N_scope.
 
@@ -60,8 +60,12 @@ Theorem C02_sparse_exact : forall sp md w' n P,
      (forall i, sv_rank sp md sv i = Ok (vs_rank P i)) /\
      (forall r, sv_select sp md sv r = Ok (vs_select P r)) /\
      (forall v, it_first md sv (sv_predecessor sp md sv v) = Ok (hd_error (vs_pred P v))) /\
-     (forall v, it_first md sv (sv_successor sp md sv v) = Ok (hd_error (vs_succ P v)))) /\
+     (forall v, it_first md sv (sv_successor sp md sv v) = Ok (hd_error (vs_succ P v))) /\
+     sv_is_multiset md sv = Ok (has_dup P)) /\
     ((forall i, sv_rank_zero sp md sv i = Ok (i - vs_rank P i)) /\
+     (forall r, sv_select_zero sp md sv r = Ok (vs_select_zero P n r)) /\
+     (forall k, (let* z := sv_zero_iter md sv in zi_take md sv k z) = Ok (vs_zeros_from P n 0 k)) /\
+     (forall r k, (let* z := sv_select_zero_iter sp md sv r in zi_take md sv k z) = Ok (vs_zeros_from P n r k)) /\
      (forall r, n - lenN P <= r -> sv_select_zero sp md sv r = Ok None) /\
      (forall r, r < n - lenN P -> exists z, sv_select_zero sp md sv r = Ok (Some z) /\
         z < n /\ vs_get P z = false /\ vs_rank P z + r = z)) /\
